@@ -277,6 +277,9 @@ def main(argv):
         if a.prop == "C19":
             from . import c19
             return c19.run(a.tier, seed)
+        if a.prop == "C13":
+            from . import c13
+            return c13.run(a.tier, seed)
         if a.prop == "C17":
             return run_c17(a.tier, seed, a.ops.split(",") if a.ops else None, a.types.split(",") if a.types else None)
         print("unknown property", a.prop)
